@@ -456,6 +456,19 @@ func (e *specEnv) tr(x Expr) specVal {
 			if a.typ != nil && isFloat(a.typ) || b.typ != nil && isFloat(b.typ) {
 				return mathBool(sx(n.Op, a.term, b.term))
 			}
+			if a.typ != nil && b.typ != nil && isString(a.typ) && isString(b.typ) {
+				vc.declareOnce("strless", "(declare-fun strless (Int Int) Bool)")
+				switch n.Op {
+				case "<":
+					return mathBool(sx("strless", a.term, b.term))
+				case ">":
+					return mathBool(sx("strless", b.term, a.term))
+				case "<=":
+					return mathBool(not(sx("strless", b.term, a.term)))
+				default:
+					return mathBool(not(sx("strless", a.term, b.term)))
+				}
+			}
 			if !a.isInt() || !b.isInt() {
 				e.fail("comparison of non-integers: %s", x)
 			}
@@ -759,6 +772,14 @@ func (e *specEnv) call(n *ECall) specVal {
 		ks := vc.sortOf(mt.Key())
 		h := e.heap(mapHasHeap(mt), "(Array Int (Array "+ks+" Bool))")
 		return mathBool(and(not(eq(m.term, "0")), sx("select", sx("select", h, m.term), k.term)))
+	case "valid":
+		// the value is a well-typed value of its Go type in the current state (slice header well-formed and its
+		// array allocated, reference nil or allocated, integer in range)
+		v := e.rvalue(arg(0))
+		if v.typ == nil {
+			e.fail("valid() needs a typed value")
+		}
+		return mathBool(vc.typeFacts(v.term, v.typ, e.st))
 	case "allocated":
 		v := arg(0)
 		return mathBool(sx("select", e.heap("alloc", allocSort), sx("root", e.refOf(v))))
@@ -1021,8 +1042,8 @@ func (f *frame) lookupLocal(name string, b *ssa.BasicBlock, phiOverride map[*ssa
 			return specVal{term: f.val(phi).t, typ: phi.Type()}, true
 		}
 	}
-	// 2. walk dominators
-	for d := b.Idom(); d != nil; d = d.Idom() {
+	// 2. the block itself (only what was executed so far has a value), then its dominators
+	for d := b; d != nil; d = d.Idom() {
 		for i := len(d.Instrs) - 1; i >= 0; i-- {
 			switch x := d.Instrs[i].(type) {
 			case *ssa.DebugRef:
